@@ -32,8 +32,8 @@ def tentative_outside_curve(p, hyd, a, b):
     """did the tentative full-step volume (from row a to the next hydraulic grid time) leave the volume curve?"""
     import numpy as np
 
-    if not p["curve"]:
-        return False
+    if not p["curve"] or K.probe_mode() == "extrap":
+        return False  # with the extrapolating lookup nothing is clamped: no failure may be put down to clamping
     arr = np.array(p["curve"])
     va = float(np.interp(a[1] - p["elev"], arr[:, 0], arr[:, 1]))
     tgrid = (math.floor(a[0] / hyd) + 1) * hyd
@@ -396,6 +396,7 @@ class C06(Check):
                             "rows": [(r["t"], round(r["tanks"][tn][0] - tr.tanks[tn]["elev"], 6), r["tanks"][tn][1]) for r in tr.rows[:6]]})
         B.finish()
         ctx.cov["driver_requests"] = len(B.lines)
+        ctx.cov["curve_lookup_mode"] = K.probe_mode()
         known = {k.get("key") for k in vlib.load_known_findings()["findings"] if k.get("property") == "C06"}
         if broken and not [f for f in failures if f.key not in known]:
             # vlib only searches when no failure at all was found; known findings must not suppress the search
